@@ -194,11 +194,16 @@ def ensure_facts(features=""):
         info["extracted"] = True
         info["extract_s"] = round(time.time() - t0, 2)
         # keep the cache bounded: drop all but the 12 most recent fact sets
-        sets = sorted(glob.glob(os.path.join(CACHE, "facts", "*")), key=os.path.getmtime)
+        def _mt(pth):
+            try:
+                return os.path.getmtime(pth)
+            except OSError:
+                return 0.0      # removed by a concurrent run between the listing and the stat
+        sets = sorted(glob.glob(os.path.join(CACHE, "facts", "*")), key=_mt)
         now = time.time()
         for old in sets[:-150]:
             # never evict a set another process may be about to load
-            if now - os.path.getmtime(old) > 1800:
+            if now - _mt(old) > 1800:
                 shutil.rmtree(old, ignore_errors=True)
         return out, info
     finally:
